@@ -1544,17 +1544,12 @@ class Parameter(_ParameterBase):
         item in a list).
         """
         name = self.name
+        resolved = False
         if obj is not None and self.allow_refs and obj._param__private.initialized:
-            syncing = name in obj._param__private.syncing
             ref, deps, val, is_async = obj.param._resolve_ref(self, val)
-            refs = obj._param__private.refs
-            if ref is not None:
-                self.owner.param._update_ref(name, ref)
-            elif name in refs and not syncing:
-                del refs[name]
-                if name in obj._param__private.async_refs:
-                    obj._param__private.async_refs.pop(name).cancel()
+            resolved = True
             if is_async or val is Undefined:
+                self._update_ref(obj, ref)
                 return
 
         # Deprecated Number set_hook called here to avoid duplicating setter
@@ -1603,6 +1598,9 @@ class Parameter(_ParameterBase):
                     # whose default predates a class-level assignment)
                     _old = inspect.getattr_static(type(obj), name, self).default
                 obj._param__private.values[name] = val
+        if resolved:
+            # Only (un)link once the value has been accepted
+            self._update_ref(obj, ref)
         self._post_setter(obj, val)
 
         if obj is not None:
@@ -1632,6 +1630,19 @@ class Parameter(_ParameterBase):
             obj.param._call_watcher(watcher, event)
         if not obj.param._BATCH_WATCH:
             obj.param._batch_call_watchers()
+
+    def _update_ref(self, obj, ref):
+        """
+        Link to the assigned reference, or unlink if a plain value was assigned.
+        """
+        name = self.name
+        private = obj._param__private
+        if ref is not None:
+            self.owner.param._update_ref(name, ref)
+        elif name in private.refs and name not in private.syncing:
+            del private.refs[name]
+            if name in private.async_refs:
+                private.async_refs.pop(name).cancel()
 
     def _validate_value(self, value, allow_None):
         """Validate the parameter value against constraints.
